@@ -348,8 +348,10 @@ def try_discharge(site, tb):
                     return "Q4: dominated by l >= r"
                 if base[1] in ("Le", "Lt") and a == r and c == l and truth:
                     return "Q4: dominated by r <= l"
-                if base[1] in ("Lt", "Le") and a == l and c == r and not truth and base[1] == "Lt":
+                if base[1] in ("Lt", "Le") and a == l and c == r and not truth:
                     return "Q4: dominated by !(l < r)"
+                if base[1] in ("Gt", "Ge") and a == r and c == l and not truth:
+                    return "Q4: dominated by !(r > l)"
                 if r[0] == "const" and isinstance(r[1], int) and a == l and c[0] == "const" and isinstance(c[1], int):
                     n = c[1]
                     if (base[1] == "Gt" and truth and n + 1 >= r[1]) or (base[1] == "Ge" and truth and n >= r[1]) or \
